@@ -9,6 +9,10 @@ Extracted:
   * listen(): slice length with a stop flag, ms per second,
     the countdown test and the idle check                  -> Extracted.stopSlice, msPerSec,
                                                               countdownDone, idleNow
+  * listen()'s connection closure: when it switches to
+    upgraded mode, which returned bytes it keeps, when it
+    calls handle() again without waiting for input         -> Extracted.switchedNow, keepUnread,
+                                                              handOverAtOnce
 """
 import os
 import re
@@ -21,7 +25,7 @@ class Fail(Exception):
 
 # ---- a tiny expression translator: Rust boolean/arith expression -> Lean Bool/Nat expression
 
-TOK = re.compile(r"\s*(&&|\|\||<=|>=|==|!=|<|>|\+|-|\*|\(|\)|[A-Za-z_][A-Za-z0-9_\.]*(?:\(\))?|\d+(?:_?[a-z0-9]+)?)")
+TOK = re.compile(r"\s*(&&|\|\||<=|>=|==|!=|!|<|>|\+|-|\*|\(|\)|[A-Za-z_][A-Za-z0-9_\.]*(?:\(\))?|\d+(?:_?[a-z0-9]+)?)")
 
 
 def tokenize(s):
@@ -87,6 +91,8 @@ class P:
 
     def atom(self):
         x = self.eat()
+        if x == "!":
+            return "(!%s)" % self.atom()
         if x == "(":
             e = self.expr()
             if self.eat() != ")":
@@ -189,6 +195,28 @@ def main():
             raise Fail("countdown decrement not found")
         if not re.search(r"to_wait = listen_config\.idle_timeout \* %s;\s*\} else" % defs[2][2], ls):
             raise Fail("countdown reset not found")
+        # --- listen(): the per-connection closure, what it keeps of the bytes handle() returns
+        k = ls.find("pool.execute(move ||")
+        if k < 0:
+            raise Fail("connection closure `pool.execute(move || …)` not found in listen()")
+        ls = ls[k:]
+        m = re.search(r"let switched = ([^;]+);", ls)
+        if not m:
+            raise Fail("`let switched = …;` not found in the connection closure")
+        wnames = {"iface.is_none()": "(!wasUpgraded)", "iface.is_some()": "wasUpgraded", "i.is_some()": "nowUpgraded",
+                  "i.is_none()": "(!nowUpgraded)", "switched": "switched", "true": "true", "false": "false",
+                  "unread.is_empty()": "unreadEmpty"}
+        defs.append(("switchedNow", "(wasUpgraded nowUpgraded : Bool) : Bool", translate(m.group(1), wnames), m.group(1)))
+        m = re.search(r"unread = if ([^{]+)\{\s*u\s*\} else \{\s*Vec::new\(\)\s*\};", ls)
+        if not m:
+            raise Fail("`unread = if … { u } else { Vec::new() };` not found in the connection closure")
+        defs.append(("keepUnread", "(switched nowUpgraded : Bool) : Bool", translate(m.group(1).strip(), wnames), m.group(1).strip()))
+        m = re.search(r"if ([^{]+)\{\s*continue;", ls)
+        if not m:
+            raise Fail("`if … { continue; }` (hand the buffered bytes over without waiting) not found")
+        defs.append(("handOverAtOnce", "(switched unreadEmpty : Bool) : Bool", translate(m.group(1).strip(), wnames), m.group(1).strip()))
+        if not re.search(r"std::io::Read::chain\(unread\.as_slice\(\), &mut br\)", ls):
+            raise Fail("`chain(unread.as_slice(), &mut br)` not found in the connection closure")
     except Fail as e:
         sys.stderr.write("extract.py: %s\n" % e)
         print("EXTRACTION FAILED: %s" % e)
